@@ -182,7 +182,13 @@ pub fn scratch_root() -> PathBuf {
 /// A fresh empty directory path (not created) under the scratch root.
 pub fn fresh_dir(tag: &str) -> PathBuf {
     let n = SCRATCH_CTR.fetch_add(1, Ordering::Relaxed);
-    scratch_root().join(format!("{tag}.{n}"))
+    // unique also across a watchdog re-exec of the same pid
+    let gen = std::env::var("FJV_RESUMES").unwrap_or_else(|_| "0".to_string());
+    let p = scratch_root().join(format!("{tag}.{gen}.{n}"));
+    if p.exists() {
+        let _ = std::fs::remove_dir_all(&p);
+    }
+    p
 }
 
 pub fn rm_rf(p: &Path) {
